@@ -1005,6 +1005,20 @@ func (rc *raftNode) processReady(rd raft.Ready) {
 		}
 	}
 	processedMsgs, hasRequestSnapMsg := rc.processMessages(rd.Messages)
+	// With a single voter an entry can be committed by the very Ready that hands it out to be
+	// persisted. The apply loop answers the client as soon as the entry is applied, so the
+	// entry has to reach the WAL before it is published, otherwise an acknowledged write is
+	// lost if the process dies in between (the same race and repair as etcd issue 14370).
+	persisted := false
+	if raft.IsEmptySnap(rd.Snapshot) && shouldWaitWALSync(rd) {
+		if err := rc.persistRaftState(&rd); err != nil {
+			rc.Errorf("raft save states to disk error: %v", err)
+			go rc.ds.Stop()
+			<-rc.stopc
+			return
+		}
+		persisted = true
+	}
 	if len(rd.CommittedEntries) > 0 || !raft.IsEmptySnap(rd.Snapshot) || hasRequestSnapMsg {
 		var newPublished uint64
 		if !raft.IsEmptySnap(rd.Snapshot) {
@@ -1050,7 +1064,9 @@ func (rc *raftNode) processReady(rd raft.Ready) {
 
 	start := time.Now()
 	// TODO: save entries, hardstate and snapshot should be atomic, or it may corrupt the raft
-	if err := rc.persistRaftState(&rd); err != nil {
+	if persisted {
+		// done above, before the entries were published
+	} else if err := rc.persistRaftState(&rd); err != nil {
 		rc.Errorf("raft save states to disk error: %v", err)
 		go rc.ds.Stop()
 		<-rc.stopc
@@ -1132,6 +1148,18 @@ func (rc *raftNode) processReady(rd raft.Ready) {
 		raftDone <- struct{}{}
 	}
 	rc.node.Advance(rd)
+}
+
+// shouldWaitWALSync tells whether the committed entries of a Ready overlap its not yet
+// persisted entries (terms and indexes only grow within a Ready).
+func shouldWaitWALSync(rd raft.Ready) bool {
+	if len(rd.CommittedEntries) == 0 || len(rd.Entries) == 0 {
+		return false
+	}
+	lastCommitted := rd.CommittedEntries[len(rd.CommittedEntries)-1]
+	firstUnstable := rd.Entries[0]
+	return lastCommitted.Term > firstUnstable.Term ||
+		(lastCommitted.Term == firstUnstable.Term && lastCommitted.Index >= firstUnstable.Index)
 }
 
 //should  atomically saves the Raft states, log entries and snapshots
